@@ -410,6 +410,9 @@ impl<'a> Snippet<'a> {
         };
 
         let loc_prefix = l10n.snippet_location_prefix(*location);
+        // The title is normalised by the renderer, the annotation label is not: reflected key /
+        // value text in the message must not carry control characters into the output.
+        let label = sanitize_terminal_snippet_preserve_len(msg.to_string());
 
         let report = &[level
             .primary_title(format!("{}: {msg}", loc_prefix))
@@ -421,7 +424,7 @@ impl<'a> Snippet<'a> {
                     .annotation(
                         AnnotationKind::Primary
                             .span(local_start..local_end)
-                            .label(msg),
+                            .label(&label),
                     ),
             )];
 
